@@ -613,6 +613,48 @@ def r01_7(prog, rep, rid="R01.7", files=("evrrul.c", "evical.c", "scale.c", "ins
                             rep.ok(rid, key, f.loc(nn.get("line", line)), "`%s` compares in the type of its operands" % show(nn)[:60], nontrivial=(k == 1))
     if n < 2:
         rep.broken_("rule=%s expected >=2 comparisons of additive expressions with 0, found %d" % (rid, n))
+    # second clause: a counter that is stepped back (`m -= k`, `--m`) and then asked whether it has dropped to or below zero — the
+    # look-back of the monthly filler: `m -= months; y -= m <= 0; m += m > 0 ? 0 : 12` — must be signed: an unsigned one wraps to 2^32 - 1,
+    # passes as positive, and indexes the month tables far outside
+    m_ = 0
+    for file in files:
+        for f in prog.fns_in(file):
+            if not f.cfg or f.file != file:
+                continue
+            subs = {}
+            for b, i, x, line in f.cfg.all_elems():
+                if not isinstance(x, dict):
+                    continue
+                for l, kind, nn in writes(x):
+                    tl = strip_casts(l)
+                    if tl.get("k") == "ref" and tl.get("dk") == "local" and (
+                            (kind == "compound" and nn.get("op") == "-=" and int_value(strip_casts(nn["r"])) is None) or
+                            (kind == "incdec" and "--" in nn.get("op", ""))):
+                        subs[tl.get("id", tl["n"])] = tl["n"]
+            seen = set()
+            for b, i, x, line in f.cfg.all_elems():
+                if not isinstance(x, dict):
+                    continue
+                for nn in walk(x):
+                    if not (nn.get("k") == "bin" and nn["op"] in ("<", "<=") and int_value(strip_casts(nn["r"])) == 0):
+                        continue
+                    v = strip_casts(nn["l"])
+                    if not (v.get("k") == "ref" and v.get("id", v.get("n")) in subs):
+                        continue
+                    key = "%s/stepped-back-counter(%s)" % (f.name, v["n"])
+                    if key in seen:
+                        continue
+                    seen.add(key)
+                    m_ += 1
+                    t = (v.get("t") or "")
+                    if t.startswith(("unsigned", "size_t", "uint")) or t in ("echs_wday_t",):
+                        rep.fail(rid, key, f.loc(nn.get("line", line)), "`%s` asks whether %s has dropped to zero or below after it was stepped back, but %s is "
+                                 "%s: stepping back past zero wraps to a huge value, the test fails and the value indexes the month tables "
+                                 "far outside (a MONTHLY rule with a SHIFT of a month or more, expanded from January)" % (show(nn)[:40], v["n"], v["n"], t))
+                    else:
+                        rep.ok(rid, key, f.loc(nn.get("line", line)), "%s is signed (%s)" % (v["n"], t), nontrivial=(m_ == 1))
+    if m_ < 2:
+        rep.broken_("rule=%s expected >=2 stepped-back counters tested against 0 (shift(), rrul_fill_mly), found %d" % (rid, m_))
 
 
 # ---------------------------------------------------------------------------
@@ -899,3 +941,47 @@ def r09_10(prog, rep, rid="R09.10"):
                     rep.ok(rid, key, f.loc(), "the walk starts from the month the congruence check looked at")
     if n < 1:
         rep.broken_("rule=%s expected the congruence check and month walk of the monthly filler, found %d" % (rid, n))
+
+
+def r01_10(prog, rep, rid="R01.10"):
+    """INTERVAL counts periods from DTSTART: the cursor a filler steps by `rr->inter` keeps its phase only if, inside the expansion
+    loop, nothing else moves it — it is stepped by INTERVAL and reduced modulo its period (`%=`, the `--, %=, ++` idiom, or an assignment
+    from its own remainder).  A jump (`d = maxd` to hurry through a month BYMONTH excludes) lands on a day that is no multiple of
+    INTERVAL away from DTSTART, and every later occurrence is out of phase."""
+    n = 0
+    for f in fillers(prog):
+        cfg = f.cfg
+        mains = [(h, b) for h, b in cfg.natural_loops().items() if _is_main_loop(f, h)]
+        if not mains:
+            continue
+        h, blks = max(mains, key=lambda t_: len(t_[1]))
+
+        def is_step(kind, nn):
+            return kind == "compound" and nn.get("op") == "+=" and lv(strip_casts(cfg.resolve(nn["r"]))).endswith("->inter")
+        steps = set()
+        ws = []
+        for b in sorted(blks):
+            for e in cfg.blocks[b].elems:
+                if isinstance(e["x"], dict):
+                    for l, kind, nn in writes(e["x"]):
+                        ws.append((lv(l), kind, nn, e.get("line")))
+                        if is_step(kind, nn):
+                            steps.add(lv(l))
+        for v in sorted(steps):
+            n += 1
+            key = "%s/cursor-moves-by-interval-only(%s)" % (f.name, v)
+            odd = []
+            for t, kind, nn, line in ws:
+                if t != v or is_step(kind, nn) or kind == "incdec" or (kind == "compound" and nn.get("op") == "%="):
+                    continue
+                if kind == "assign" and any(q.get("k") == "bin" and q["op"] == "%" and any(
+                        r_.get("k") == "ref" and r_.get("n") == v for r_ in walk(q["l"])) for q in walk(cfg.resolve(nn["r"]))):
+                    continue
+                odd.append((line, show(nn)[:40]))
+            if odd:
+                rep.fail(rid, key, f.loc(odd[0][0]), "inside the expansion loop %s is also moved by `%s`: the cursor is no longer a whole number of "
+                         "INTERVALs away from DTSTART, every occurrence behind that point is out of phase (INTERVAL >= 2)" % (v, odd[0][1]))
+            else:
+                rep.ok(rid, key, f.loc(), "%s is stepped by INTERVAL and reduced modulo its period only" % v)
+    if n < 5:
+        rep.broken_("rule=%s expected >=5 interval-stepped cursors in the fillers, found %d" % (rid, n))
